@@ -623,6 +623,16 @@ def engine_chain(run, rng: random.Random, base: str, case_id: Any, sample: bool)
                     stored_prefix = 'nothere'
             exact = kind == 'raw' and not b.ref.fold
             members.append((b, spell_prefix(rng, stored_prefix, exact), stored_prefix))
+        # the same filesystem object mounted a second time (usually under another subfolder), as one does with a VPK
+        if len(members) < 4 and rng.random() < 0.25:
+            b0, _, _ = rng.choice(members)
+            names0 = [n for n, _ in b0.ref.by_key.values()]
+            folders0 = sorted({'/'.join(n.split('/')[:i]) for n in names0 for i in range(1, len(n.split('/')))})
+            stored2 = rng.choice(folders0) if folders0 and rng.random() < 0.8 else ''
+            exact2 = b0.kind == 'raw' and not b0.ref.fold
+            members.append((b0, spell_prefix(rng, stored2, exact2), stored2))
+            n_members = len(members)
+            run.count('chains_with_member_mounted_twice')
         # assemble: constructor arguments in order, then priority insertions
         order = list(range(n_members))
         n_ctor = rng.randint(0, n_members)
@@ -838,7 +848,7 @@ def main(run, shard=(0, 1)) -> None:
     probe.check_reached(run)
     run.require('lookups', 'walks', 'listed_names_looked_up', 'chain_lookups', 'chain_walks', 'add_sys_priority',
                 'chains_with_prefixed_member', 'backend_virtual', 'backend_zip', 'backend_vpk', 'backend_raw',
-                'casedup_backends_checked', 'chain_members_4')
+                'casedup_backends_checked', 'chain_members_4', 'chains_with_member_mounted_twice')
 
 
 def replay(run, data) -> None:
